@@ -1305,7 +1305,11 @@ func intFloorDivI(x, y Integer) (Integer, error) {
 	case y == 0:
 		return 0, exceptionalValueZeroDivisor
 	default:
-		return Integer(math.Floor(float64(x) / float64(y))), nil
+		q := x / y
+		if x%y != 0 && (x < 0) != (y < 0) {
+			q--
+		}
+		return q, nil
 	}
 }
 
